@@ -161,16 +161,23 @@ def fuzz_candidates(tier, log, caps=None):
     wasm_seeds += [bytes([0xE0]) + b"77", bytes([0xE0]) + b"7", bytes([0xC0]) + b"1234567", bytes([0xC0]) + b"ABC D", bytes([0xE0]) + b"A",
                    bytes([0xC0]) + b"abcd", bytes([0xA0]) + b"hello world ", bytes([0xE0]) + b"12345"]
     wasm_seeds += [b"\x01\x04\x00" + bytes([len(im) % 24]) + im[:23] + b"HELLO" for im in imgs]
-    # independent single-process fuzzers, each with its own corpus directory: 7 on short payloads (all short seeds), 5 on long
-    # payloads (the capacity-threshold seeds are sharded: a version-40 build pair takes ~20 ms), 2 on the SVG renderer, 2 on wasm
+    # independent single-process fuzzers, each with its own corpus directory: 6 on short payloads (all short seeds), 4 on long
+    # payloads (the capacity-threshold seeds are sharded: a version-40 build pair takes ~20 ms), 2 each on the SVG renderer and the wasm
+    # bindings, 1 each on QRBuilder setter/build histories and on the raster renderer
     jobs = []
-    for i in range(7):
+    for i in range(6):
         jobs.append(("build_diff", small, 200, "b%d" % i))
-    for i in range(5):
-        jobs.append(("build_diff", (large or small)[i::5], 8000, "B%d" % i))
+    for i in range(4):
+        jobs.append(("build_diff", (large or small)[i::4], 8000, "B%d" % i))
+    hist_seeds = [bytes([0, 2, 0, 14, 4]) + b"hello", bytes([2, 3, 6, 12, 1, 4]) + bytes(range(8)), bytes([1, 1, 4]) + bytes(range(6)),
+                  bytes([0, 4, 6, 12, 3, 9, 4]) + b"Hello, World"]
+    img_seeds = [bytes([3, 4, 7, 1, 0, 0, 9]), bytes([5, 4, 3, 5, 9, 4, 3, 2, 0, 0, 0, 0, 255, 255, 3, 1, 255, 255, 255, 0]),
+                 bytes([2, 2, 3, 0, 0, 255, 255, 4, 8]), bytes([4, 4, 0, 5, 0, 4, 0, 4, 7])]
     for i in range(2):
         jobs.append(("svg_diff", svg_seeds, 120, "s%d" % i))
         jobs.append(("wasm_diff", wasm_seeds, 160, "w%d" % i))
+    jobs.append(("hist_diff", hist_seeds, 60, "h0"))
+    jobs.append(("img_diff", img_seeds, 60, "i0"))
     procs = []
     for target, seeds, maxlen, tag in jobs:
         exe = os.path.join(BIN, target)
@@ -193,7 +200,7 @@ def fuzz_candidates(tier, log, caps=None):
             os.killpg(pr.pid, 9)       # the -jobs master and any worker still alive (own session, so nothing else)
         except OSError:
             pass
-    found = {"build": set(), "svg": set(), "wasm": set(), "wasmqr": set()}
+    found = {"build": set(), "svg": set(), "wasm": set(), "wasmqr": set(), "hist": set(), "raster": set()}
     for f in os.listdir(run):
         if f.startswith("cands_"):
             for line in open(os.path.join(run, f), errors="replace"):
@@ -215,8 +222,8 @@ def fuzz_candidates(tier, log, caps=None):
     cands["wasm"] = cands.get("wasm", []) + cands.pop("wasmqr", [])
     shutil.rmtree(run, ignore_errors=True)
     note = ("fuzz search: tree differs from the reference copy; targets built in %.0fs, %d s of coverage-guided differential search on 16 "
-            "workers found %d differing inputs (build %d, svg %d, wasm %d); up to 200 per stream are decided by the spec oracles"
-            % (tb, budget, total, len(found["build"]), len(found["svg"]), len(found["wasm"]) + len(found["wasmqr"])))
+            "workers found %d differing inputs (build %d, svg %d, wasm %d, hist %d, raster %d); up to 200 per stream are decided by the spec oracles"
+            % (tb, budget, total, len(found["build"]), len(found["svg"]), len(found["wasm"]) + len(found["wasmqr"]), len(found["hist"]), len(found["raster"])))
     json.dump({"budget": budget, "cands": cands, "note": note}, open(os.path.join(cdir, "%s_%d.json" % (cur, budget)), "w"))
     # keep the cache small
     ents = sorted((os.path.getmtime(os.path.join(cdir, e)), e) for e in os.listdir(cdir))
